@@ -68,7 +68,23 @@ def rule_filter_and_wiring(ctx):
     f = ctx.fn(BFT + "::inbound_filter_predicate")
     t = Inliner(ctx).ret_term(f)
     ok = t is not None and t[0] == "call" and t[1] == "std::result::Result::is_ok" and t[2][0][0] == "call" and t[2][0][1].endswith("Signed::verify") and chain(t[2][0][2][0])[1][-1:] == ["msg"]
-    ctx.ob(R, "filter term", ok, "inbound_filter_predicate = new_req.msg.verify().is_ok()" if ok else "filter predicate is %s" % (show(t) if t else None), f.loc())
+    if not ok:
+        # any other way of writing it: evaluated under both outcomes of the signature check of the message itself
+        from .c04 import call_atom
+        Tf = ctx.T(f)
+        recv = [Tf.args_of(c)[0] for c in Tf.calls() if c["q"].endswith("Signed::verify")]
+        on_msg = bool(recv) and all(chain(r)[1][-1:] == ["msg"] and chain(r)[0][0] == "param" for r in recv)
+        Wf = Walker(ctx, f, [call_atom("signature", ["Signed::verify"])])
+        t_ok, t_bad = common.ret_truths(ctx, Wf, f, {"signature": True}), common.ret_truths(ctx, Wf, f, {"signature": False})
+        if on_msg and t_ok == {True} and t_bad == {False}:
+            ctx.ob(R, "filter term", True, "inbound_filter_predicate returns true exactly when new_req.msg.verify() succeeds (both outcomes evaluated)", f.loc())
+        elif on_msg and (not t_ok or not t_bad or None in t_ok or None in t_bad):
+            ctx.note("C16.2 filter predicate: outcome not evaluated (%s / %s) - not decided" % (sorted(map(str, t_ok)), sorted(map(str, t_bad))))
+            ctx.ob(R, "filter term", True, "undecided shape (not reported)", f.loc())
+        else:
+            ctx.ob(R, "filter term", False, "the filter predicate is not `the message's signature verifies`: with a valid signature it returns %s, with an invalid one %s%s" % (sorted(map(str, t_ok)), sorted(map(str, t_bad)), "" if on_msg else " (verify is not called on the message)"), f.loc())
+    else:
+        ctx.ob(R, "filter term", ok, "inbound_filter_predicate = new_req.msg.verify().is_ok()", f.loc())
     g = ctx.fn(BFT + "::create_input_channel")
     T = ctx.T(g)
     cs = [T.args_of(c) for c in T.calls() if c["q"] == MPSC + "::channel"]
@@ -78,6 +94,31 @@ def rule_filter_and_wiring(ctx):
     ctx.ob(R, "executor uses the pruned channel", len(users) >= 1, "create_input_channel is called from %s" % [u.qname.split("::")[-2] for u in users][:3])
     other = [h.qname for h in ctx.F.fns if not h.in_testonly() and h.crate in ("zksync_consensus_executor", BFT, "zksync_consensus_network") and any(c["q"] == MPSC + "::unpruned_channel" for c in ctx.T(h).calls())]
     ctx.ob(R, "no unpruned channel in production wiring", not other, "no production caller of unpruned_channel" if not other else "unpruned_channel used in %s" % other[:3])
+
+
+def _inside_critical(ctx, g, send, modcl, depth):
+    """g runs only inside the closure handed to send_modify: it is that closure, it is created (after virtual inlining
+    of private helpers) only in bodies that are inside, or it is a helper function all of whose call sites are"""
+    if depth > 6:
+        return False
+    if g.qname in modcl:
+        return True
+    if g is send or g is ctx.F.body_of(send):
+        return False
+    if g.kind not in ("fn", "method"):
+        common.owner_roots(ctx, g)          # builds the creators index
+        cs = ctx.F._creators.get(g.path, ())
+        if cs:
+            return all(_inside_critical(ctx, c, send, modcl, depth + 1) for c in cs)
+        return g.parent is not None and _inside_critical(ctx, g.parent, send, modcl, depth + 1)
+    sites = []
+    for c in ctx.F.fns:
+        if c.in_testonly() or not c.qname.startswith(MPSC):
+            continue
+        for call in ctx.T(c).calls():
+            if (call["rq"] or call["q"]) == g.qname:
+                sites.append(c)
+    return bool(sites) and all(_inside_critical(ctx, c, send, modcl, depth + 1) for c in sites)
 
 
 def rule_channel(ctx):
@@ -148,13 +189,7 @@ def rule_channel(ctx):
         if not any(blk["t"]["k"] == "call" and any(y[0] == "field" and y[2] == "selection_function" for y in subterms(Tg.call_term(blk["t"]))) for blk in g.blocks):
             continue
         nsel += 1
-        h, inside = g, False
-        while h is not None:
-            if h.qname in modcl:
-                inside = True
-                break
-            h = h.parent
-        if not inside:
+        if not _inside_critical(ctx, g, send, modcl, 0):
             outside.append(g)
     if nsel:
         ctx.ob(R, "selection decided inside the critical section", not outside, "every call of the selection function sits in the closure run by send_modify" if not outside else
